@@ -431,11 +431,17 @@ fn run_strategy() -> BoxedStrategy<RunCase> {
 fn check_run(c: &RunCase, cov: &mut Cov) -> CheckResult {
     let mut rng = Prng::new(c.data_seed);
     let start = c.spec.interior_point(&mut rng);
-    let mut chain = NUTSChain::<f64, B64, HTarget>::new(HTarget::new(c.spec.clone()), start, c.accept.0).set_seed(c.seed);
+    // (evaluation budget: warm-up can collapse the step size and the library has no depth cap)
+    let target = HTarget::with_budget(c.spec.clone(), 150_000);
+    let mut chain = NUTSChain::<f64, B64, HTarget>::new(target.clone(), start, c.accept.0).set_seed(c.seed);
     verif::nuts_trace_start();
     let r = no_panic(|| chain.run(c.n_collect, c.n_discard));
     let tr = verif::nuts_trace_take();
     r.map_err(|m| Fail::new("nuts-panic", format!("NUTSChain::run panicked: {m}")))?;
+    if target.exhausted() {
+        cov.class("evaluation-budget-exhausted-skip");
+        return Ok(());
+    }
     let mut nontrivial = false;
     for (i, rec) in tr.iter().enumerate() {
         if i > 0 {
